@@ -394,7 +394,12 @@ class Interp(object):
             else:
                 self.call_func(fv, args, kwargs)
         elif args or kwargs:
-            raise InterpRaise('TypeError', '%s() takes no arguments' % ci.name)
+            if 'str' in ci.base_names and len(args) == 1 and isinstance(args[0], str):
+                o.attrs['__strval__'] = args[0]
+            elif any(b in ('Exception', 'BaseException') for b in ci.base_names):
+                o.attrs['args'] = tuple(args)
+            else:
+                raise InterpRaise('TypeError', '%s() takes no arguments' % ci.name)
         return o
 
     def call_func(self, fv, args, kwargs):
@@ -533,6 +538,8 @@ class Interp(object):
             self.on_setattr(v, attr, value)
 
     def native_method(self, v, attr, args, kwargs):
+        args = [self.iterate(a) if isinstance(a, Obj) and a.cls.lookup('__iter__') is not None
+                and attr in ('update', 'extend', 'difference', 'union') else a for a in args]
         if isinstance(v, (list, set, dict)) and attr in ('append', 'add', 'extend', 'update', 'insert',
                                                           'setdefault', 'remove', 'clear', 'pop', 'copy',
                                                           'get', 'items', 'keys', 'values', 'index',
@@ -682,10 +689,37 @@ class Interp(object):
     def nat_all(self, args, kwargs):
         return all(self.truth(x, None) for x in self.iterate(args[0]))
 
+    def _lt(self, a, b):
+        return self.compare(ast.Lt(), a, b, None)
+
+    def nat_bisect(self, args, kwargs):
+        a, x = args[0], args[1]
+        lo, hi = 0, len(a)
+        while lo < hi:
+            mid = (lo + hi) // 2
+            if self._lt(x, a[mid]):
+                hi = mid
+            else:
+                lo = mid + 1
+        return lo
+
+    nat_bisect_right = nat_bisect
+
+    def nat_insort(self, args, kwargs):
+        a, x = args[0], args[1]
+        a.insert(self.nat_bisect([a, x], {}), x)
+
+    nat_insort_right = nat_insort
+
+    def nat_set(self, args, kwargs):
+        return set(self.iterate(args[0])) if args else set()
+
     def nat_str(self, args, kwargs):
         v, = args
         if isinstance(v, str):
             return v
+        if isinstance(v, Obj) and '__strval__' in v.attrs:
+            return v.attrs['__strval__']
         raise Uninterpretable('str(%r)' % (v,))
 
     def nat_repr(self, args, kwargs):
@@ -698,6 +732,10 @@ class Interp(object):
             return list(v)
         if isinstance(v, str):
             return list(v)
+        if isinstance(v, Obj):
+            m = v.cls.lookup('__iter__')
+            if m is not None:
+                return self.iterate(self.call(FuncVal(m.rel, m.node, None, v, m.cls), [], {}))
         raise Uninterpretable('iteration over %r' % (v,))
 
     # ---- truthiness / comparison ------------------------------------------------
@@ -752,12 +790,18 @@ class Interp(object):
                     r = any(self.compare(ast.Is(), a, x, node) for x in b)
                 else:
                     r = a in b
+            elif isinstance(b, Obj) and b.cls.lookup('__contains__') is not None:
+                m = b.cls.lookup('__contains__')
+                r = self.truth(self.call(FuncVal(m.rel, m.node, None, b, m.cls), [a], {}), None)
             else:
                 raise Uninterpretable('membership in %r' % (b,))
             return r if isinstance(op, ast.In) else not r
         if isinstance(a, (int, str, tuple, float)) and isinstance(b, (int, str, tuple, float)) \
                 and not _has_sym(a) and not _has_sym(b):
             return {ast.Lt: a < b, ast.LtE: a <= b, ast.Gt: a > b, ast.GtE: a >= b}[type(op)]
+        if isinstance(a, Obj) and isinstance(op, ast.Lt) and a.cls.lookup('__lt__') is not None:
+            m = a.cls.lookup('__lt__')
+            return self.truth(self.call(FuncVal(m.rel, m.node, None, a, m.cls), [b], {}), None)
         raise Uninterpretable('ordering comparison of %r and %r' % (a, b))
 
     # ---- expression evaluation -------------------------------------------------
@@ -885,6 +929,10 @@ class Interp(object):
                 return v[i]
             except KeyError:
                 raise InterpRaise('KeyError', repr(i), e)
+        if isinstance(v, Obj):
+            m = v.cls.lookup('__getitem__')
+            if m is not None:
+                return self.call(FuncVal(m.rel, m.node, None, v, m.cls), [i], {})
         raise Uninterpretable('%s:%s subscript of %r' % (f.rel, e.lineno, v))
 
     def e_Call(self, e, f):
